@@ -94,6 +94,12 @@ func manifestHandler(raw json.RawMessage) (any, error) {
 		for _, sp := range []string{"", "m", "m/n"} {
 			probes = append(probes, pk.SourceAddr(sp))
 		}
+		// "a nil value represents no metadata": the accessors are part of every answer about a package
+		pk := pk
+		guardf("RemotePackageMeta.GitCommitID", func() {
+			m := b.RemotePackageMeta(pk)
+			_ = m.GitCommitID() + m.GitCommitMessage()
+		})
 	}
 	for _, rp := range b.RegistryPackages() {
 		for _, v := range b.RegistryPackageVersions(rp) {
